@@ -22,6 +22,8 @@ def build():
     u.spec = u.spec + ['storage/spec.rs']
     u.files = u.files + [S, 'src/storage/entry.rs', 'src/storage/generic.rs', 'src/storage/drain.rs']
     u.struct('src/storage/track.rs', ['enum ComponentEvent'], derive='Clone, Copy, PartialEq, Eq, Structural')
+    u.struct(S, ['type InsertResult'])
+    u.struct('src/error.rs', ['enum Error'], derive='Debug')
     u.struct(S, ['struct MaskedStorage'])
     u.struct(S, ['struct Storage'])
     MIMPL = 'impl<T: Component> MaskedStorage<T>'
@@ -101,4 +103,17 @@ def build():
          requires=WR,
          ensures=[E('map', 'final(self).data@ == Map::<Index, T>::empty()'), E('wf', 'final(self).data.wf()'),
                   E('events', 'final(self).data.log() == old(self).data.log()', 'C12')] + FRAME_W)
+    u.fn(S, [SIMPL, 'fn not_present_insert'], props='C04 C12', impl_header=HW, key='Storage(&mut)::not_present_insert',
+         rules=N8 + [('N13', r'cfg!\(panic = "abort"\)', 'cfg_panic_abort()')],
+         requires=WR + [E('absent', '!old(self).data@.dom().contains(id)')],
+         hints=[('start', None, 'broadcast use axiom_guard_resolved;')],
+         ensures=[E('map', 'final(self).data@ == old(self).data@.insert(id, value)'), E('wf', 'final(self).data.wf()'),
+                  E('events', 'final(self).data.log() == old(self).data.log() + old(self).data.inner.ev_insert(id)', 'C12')] + FRAME_W)
+    u.fn(S, [SIMPL, 'fn insert'], ret='r', props='C03 C04 C12', impl_header=HW, key='Storage(&mut)::insert', rules=N8,
+         requires=WR,
+         ensures=[E('stale', '!live(old(self).entities, e) ==> r is Err && final(self).data@ == old(self).data@ && final(self).data.log() == old(self).data.log()', 'C03'),
+                  E('ok', 'live(old(self).entities, e) ==> r is Ok && final(self).data@ == old(self).data@.insert(e.0, v)', 'C04'),
+                  E('ret', 'live(old(self).entities, e) ==> r.unwrap() == (if old(self).data@.dom().contains(e.0) { Some(old(self).data@[e.0]) } else { None })', 'C04'),
+                  E('events', 'live(old(self).entities, e) ==> final(self).data.log() == old(self).data.log() + (if old(self).data@.dom().contains(e.0) { old(self).data.inner.ev_get_mut(e.0) } else { old(self).data.inner.ev_insert(e.0) })', 'C12'),
+                  E('wf', 'final(self).data.wf()', 'C04')] + FRAME_W)
     return u
